@@ -380,3 +380,31 @@ theorem validateRegular_ok {t p : TRC} {voters acks : List ICert}
         · cases h
 
 end Scion.Trc
+
+namespace Scion.Trc
+
+theorem withIdx_map_snd (n : Nat) (cs : List Cert) : (withIdx n cs).map (·.2) = cs := by
+  induction cs generalizing n with
+  | nil => rfl
+  | cons c cs ih => simp [withIdx, ih]
+
+theorem ofCls_map_snd (k : Cls) (cs : List Cert) :
+    (ofCls k cs).map (·.2) = cs.filter (fun c => c.cls = k) := by
+  unfold ofCls
+  have : ∀ n, ((withIdx n cs).filter (fun p => p.2.cls = k)).map (·.2) =
+      cs.filter (fun c => c.cls = k) := by
+    intro n
+    induction cs generalizing n with
+    | nil => rfl
+    | cons c cs ih =>
+      simp only [withIdx, List.filter_cons]
+      by_cases h : c.cls = k <;> simp [h, ih]
+  exact this 0
+
+theorem ofCls_subjects (k : Cls) (cs : List Cert) :
+    (ofCls k cs).map (fun p => p.2.subj) = subjectsOf k cs := by
+  unfold subjectsOf
+  rw [← ofCls_map_snd, List.map_map]
+  rfl
+
+end Scion.Trc
